@@ -568,3 +568,22 @@ pub fn reset_after_fin_acked_native(_x: u8) -> u32 {
     assert!(pending.reset_stream.len() == 1, "RESET_STREAM was not queued exactly once");
     1
 }
+
+/// Native replay body for the E2 query `e2_streams_open_limit` (C05), through the public `Streams::open` on a
+/// real `StreamsState` whose peer allows `limit` streams per direction: exactly `limit` streams can be opened.
+pub fn open_limit_native(limit: u8) -> u32 {
+    use super::state::verif::{mk_streams, Scalars};
+    let mut st = mk_streams(&Scalars { max: [limit as u64, limit as u64], max_data: 1 << 20, send_window: 1 << 20, ..Default::default() });
+    let conn_state = crate::connection::State::Established;
+    for dir in [Dir::Bi, Dir::Uni] {
+        let mut opened = 0u32;
+        for _ in 0..(limit as u32 + 3) {
+            let mut s = Streams { state: &mut st, conn_state: &conn_state };
+            if s.open(dir).is_some() {
+                opened += 1;
+            }
+        }
+        assert!(opened == limit as u32, "{} {:?} streams opened against a peer limit of {}", opened, dir, limit);
+    }
+    1
+}
